@@ -452,7 +452,7 @@ func (r *Replica) Stop() {
 	// its own. Wait until that has happened (everything in the bubble blocked)
 	// so that the next lifetime never races with it for the file lock.
 	if r.Sched == nil {
-		synctest.Wait()
+		Quiesce()
 	}
 	r.Node.Pegnet.DB.Close()
 	if r.ro != nil {
@@ -510,7 +510,23 @@ func (r *Replica) RO() *sql.DB { return r.ro }
 var Abort = make(chan struct{})
 
 // ResetAbort arms a fresh abort channel (called at the start of each bubble).
-func ResetAbort() { Abort = make(chan struct{}) }
+func ResetAbort() {
+	Abort = make(chan struct{})
+	waitSem = make(chan struct{}, 1) // made inside the bubble: blocking on it is durable blocking
+}
+
+// waitSem serialises synctest.Wait: it must never be in progress on two
+// goroutines at once (the delivery coordinator of a transport and a replica
+// being stopped both wait for quiescence). A goroutine queued on the channel
+// is durably blocked, so the waiter in front of it can complete.
+var waitSem chan struct{}
+
+// Quiesce waits until every other goroutine of the bubble is durably blocked.
+func Quiesce() {
+	waitSem <- struct{}{}
+	synctest.Wait()
+	<-waitSem
+}
 
 // StopScheduled ends a lifetime that runs under the scheduler: context
 // cancelled, transport down, every parked goroutine released until the sync
